@@ -36,7 +36,7 @@ type DynConn struct {
 
 // Item scripts one batch item.
 type Item struct {
-	// Pay "erritem": prep hands this item over as an error Result
+	// Pay "erritem": prep hands this item over as an error Result; "nilitem": an untyped nil in a []any item list
 	// (NewErrorResult); it is still an item and must be processed like any other.
 	Pay  string    `json:"pay,omitempty"`
 	Exec []Outcome `json:"exec,omitempty"` // per attempt; the last entry repeats
@@ -92,6 +92,9 @@ type NodeSpec struct {
 	DecoyForm string `json:"decoy_form,omitempty"`
 
 	// batch
+	// Sibling: the constructor is called twice with the very same option slice
+	// (a template re-used for several nodes); the node under test is the second.
+	Sibling bool `json:"sibling,omitempty"`
 	Hand      bool   `json:"hand,omitempty"`       // BatchNodeBuilder{BatchNode{CustomNode}} composed by hand: prep may return anything
 	PrepShape string `json:"prep_shape,omitempty"` // results | anys | ints | strings | single | nil
 
